@@ -348,6 +348,7 @@ impl World {
                 m.frames.clear();
                 m.inflight.clear();
                 m.store_borrowed = None;
+                m.clean_stack.clear();
                 m.expect_side_for = None;
                 m.expected_unboxed = None;
                 m.pending_leaf = None;
@@ -601,6 +602,9 @@ pub fn run_program(prog: &Program, check_prop: &'static str, verbose: bool) -> R
     };
     set_world(std::ptr::null());
     // Whatever is still alive (pinned garbage, leaks after faults) stays allocated; callbacks are inert now.
+    if world.dead.get() {
+        world.leak_tables(); // after a violation the heap cannot be trusted: touch nothing
+    }
     drop(world);
     res
 }
